@@ -1014,6 +1014,27 @@ func (r *run) store(s *State, l ast.Expr, v Val, rhs ast.Expr, pos token.Pos) {
 		r.pWriteVal(s, p, l, rhs, v, pos)
 		return
 	}
+	// a slot store into a presized result list: one more element, in slot order
+	if ix, ok := l.(*ast.IndexExpr); ok {
+		if id, isID := ix.X.(*ast.Ident); isID {
+			if o := in.Info.ObjectOf(id); o != nil {
+				if cur, tracked := s.Env[o]; tracked && cur.K == "vals" && cur.F != nil && cur.F["presized"].K == "str" {
+					if _, isIdx := ix.Index.(*ast.Ident); isIdx {
+						d := v.K
+						if v.K == "child" {
+							d = "child@" + v.A
+						}
+						if cur.A != "empty" && cur.B != d {
+							d = "mixed"
+						}
+						n := map[string]string{"empty": "n1", "n1": "n2", "n2": "n3", "n3": "n3"}[cur.A]
+						s.Env[o] = Val{K: "vals", A: n, B: d, F: cur.F}
+						return
+					}
+				}
+			}
+		}
+	}
 	// index into a tracked local map
 	if ix, ok := l.(*ast.IndexExpr); ok {
 		base := r.eval(s, ix.X)
@@ -1278,6 +1299,12 @@ func (r *run) eval(s *State, e ast.Expr) Val {
 					if _, ok := t.Underlying().(*types.Slice); ok {
 						if len(x.Args) >= 2 && in.exprText(x.Args[1]) == "0" {
 							return Val{K: "vals", A: "empty"}
+						}
+						// a list created at its final length and filled slot by slot (`vals[i] = v` in the loop
+						// over the operands): every slot store counts as one appended element; the list is looked
+						// at only after the loop
+						if len(x.Args) == 2 && strings.HasPrefix(in.exprText(x.Args[1]), "len(") {
+							return Val{K: "vals", A: "empty", F: map[string]Val{"presized": {K: "str", A: in.exprText(x.Args[1])}}}
 						}
 					}
 				}
